@@ -186,3 +186,15 @@ package ingest
 // ModifiedFeatures bookkeeping.
 //@ func Feature.MergeFrom
 //@   trusted
+
+// ---- C16: enumeration of a layered world -------------------------------------------------
+// OverlayWorld.EachFeature first enumerates the upper layer, then the base through this
+// filter closure: the caller's callback is invoked for a base feature exactly when the
+// upper layer has no feature with that ID - so each ID is enumerated once, with the upper
+// version. (Ghost variable called: the callback was invoked; the callback itself is an
+// unknown function value and is havocked.)
+//@ func (*OverlayWorld).EachFeature$1
+//@   ghostvar called = false
+//@   dyncall sets called = true
+//@   requires o != nil && o.overlay != nil && feature != nil
+//@   ensures called == !old(o.overlay.HasFeatureWithID(feature.FeatureID()))
